@@ -985,7 +985,7 @@ def plan(tier, seed):
 	units = []
 	u = 0
 	reps = 2 if tier == "quick" else 8
-	n = 32 if tier == "quick" else 250
+	n = 32 if tier == "quick" else 400
 	for rep in range(reps):
 		for scen in SCENARIOS:
 			for bw in (0, 1, 2):
